@@ -363,3 +363,14 @@ def int_eval(e, env):
         if nm in ("int", "abs") and len(a) == 1:
             return int(a[0]) if nm == "int" else abs(a[0])
     raise ValueError("operation %s" % (e.args[0] if op == "call" else op))
+
+
+def lift_conds(e):
+    """getitem(A, x if t else y) is getitem(A, x) if t else getitem(A, y): conditionals in the index of a look-up are lifted out
+    (one level), so that a value reads the same whether the choice was made by an if statement or inside the subscript"""
+    def fn(x):
+        if is_call(x, "getitem") and len(x.args) == 3 and isinstance(x.args[2], E) and x.args[2].op == "cond":
+            t, a, b = x.args[2].args
+            return S.cond(t, S.call("getitem", x.args[1], a), S.call("getitem", x.args[1], b))
+        return None
+    return transform(e, fn)
